@@ -1163,3 +1163,11 @@ func TryRecv(ch interface{}) (interface{}, bool) {
 	}
 	return v.Interface(), true
 }
+
+// Steps returns the number of transitions fired so far in this execution.
+func Steps() int {
+	if w == nil {
+		return 0
+	}
+	return w.steps
+}
